@@ -150,8 +150,10 @@ func c17r2(r *R) {
 }
 
 // retExpr renders result k of a return, resolving loads of a named-result cell to the value stored in the same block.
-func retExpr(c *Ctx, ret *ssa.Return, k int) string {
-	v := refineAt(ret.Results[k], ret.Block())
+// retValue: the k-th result of ret, looking through the spill a function with deferred calls goes through
+// (`*res = v; rundefers; return *res`) and refined to the one value it can have in the return block.
+func retValue(ret *ssa.Return, k int) ssa.Value {
+	v := ret.Results[k]
 	if u, ok := v.(*ssa.UnOp); ok && u.Op == token.MUL {
 		if al, ok := u.X.(*ssa.Alloc); ok {
 			var last ssa.Value
@@ -161,12 +163,14 @@ func retExpr(c *Ctx, ret *ssa.Return, k int) string {
 				}
 			}
 			if last != nil {
-				return c.Expr(last)
+				v = last
 			}
 		}
 	}
-	return c.Expr(v)
+	return refineAt(v, ret.Block())
 }
+
+func retExpr(c *Ctx, ret *ssa.Return, k int) string { return c.Expr(retValue(ret, k)) }
 
 func inLoopRegion(fn *ssa.Function, i ssa.Instruction) bool {
 	// block reachable from a loop block
